@@ -41,9 +41,19 @@ Print Assumptions C11_later_parse_leaves_earlier_results.
 
 (* every store of the parse goes above the frame: the judgement the proof runs on, for the record *)
 Theorem C11_frame_judgement_of_parse :
-  forall n source allow sq dq, tri n (le n) (parser_parse source allow sq dq).
+  forall n d0 source allow sq dq, tri n d0 (le n) (parser_parse source allow sq dq).
 Proof. exact t_parser_parse. Qed.
 Print Assumptions C11_frame_judgement_of_parse.
+
+(* the frame taken in the middle of a build: the remaining steps write only to the database object and to what they create, so an
+   element that has been added keeps its content until the database is returned *)
+Theorem C11_build_steps_write_only_to_the_database_and_new_objects :
+  forall st db h h' r,
+  db < length h -> (forall x, h_database h db = Some x -> d_project x = None) ->
+  build_rest st db h = (h', r) ->
+  forall x, x < length h -> x <> db -> nth_error h' x = nth_error h x.
+Proof. exact build_steps_write_only_to_the_database_and_new_objects. Qed.
+Print Assumptions C11_build_steps_write_only_to_the_database_and_new_objects.
 
 (* non-vacuity: two actual parses, the second leaves the first database and its table untouched *)
 Example C11_two_parses_example :
